@@ -89,6 +89,10 @@ func main() {
 		sets := []queryrun.IndexSet{queryrun.IndexSets[0]}
 		if *indexes == "all" {
 			sets = []queryrun.IndexSet{queryrun.IndexSets[1+i%(len(queryrun.IndexSets)-1)]}
+			// every second case gets an index set whose leading field the query orders or filters by (if there is one)
+			if rel := queryrun.RelevantSets(c.Q); i%2 == 1 && len(rel) > 0 {
+				sets = []queryrun.IndexSet{rel[(i/2)%len(rel)]}
+			}
 		}
 		for _, is := range sets {
 			n, err := r.Populate(c, is)
